@@ -1,4 +1,4 @@
 CONSTANTS MaxRounds = 60 Family = "small"
 SPECIFICATION Spec
-INVARIANTS RoundsBounded StackOK DonePinsOK DoneLaws Emit
+INVARIANTS RoundsBounded StackOK DonePinsOK DoneLaws DoneLawsNoRepin Emit
 PROPERTY EventuallyStops
